@@ -1,11 +1,11 @@
 SPECIFICATION Spec
 CONSTANTS
-  HasMax = FALSE
-  KMax = 5
-  KMin = 1
-  MinZero = FALSE
-  KEdge = 1
-  KOut = 3
+  HasMax = TRUE
+  KMax = 3
+  KMin = 2
+  MinZero = TRUE
+  KEdge = 0
+  KOut = 0
   Variant = "repaired"
 INVARIANT TypeOK
 INVARIANT NoCrash
